@@ -464,6 +464,17 @@ def check_actions(repo, rep):
                                x.value, ast.Name) and x.value.id == q
                            for x in ast.walk(fi.node))
             cenv[q] = ops if uses_ops else absint.Obj(q)
+        # locals of the generating method that alias a field of the parser
+        # (aliases = self._aliases) are that field
+        pself = fi.parent_func.params()[:1]
+        for st in model.walk_shallow(fi.parent_func.node):
+            if isinstance(st, ast.Assign) and len(st.targets) == 1 and \
+                    isinstance(st.targets[0], ast.Name) and isinstance(
+                        st.value, ast.Attribute) and isinstance(
+                        st.value.value, ast.Name) and pself and \
+                    st.value.value.id == pself[0] and \
+                    st.value.attr in this.attrs:
+                cenv[st.targets[0].id] = this.attrs[st.value.attr]
         try:
             out = it.run(fi.node, args, cenv)
         except absint.Unsupported as e:
